@@ -409,9 +409,9 @@ func main() {
 	workDir = filepath.Join(*verif, ".work")
 	cacheDir = filepath.Join(*verif, ".cache")
 	if *timeout == 0 {
-		*timeout = 10
+		*timeout = 30
 		if *tier == "thorough" {
-			*timeout = 60
+			*timeout = 120
 		}
 	}
 	t0 := time.Now()
